@@ -152,7 +152,7 @@ def run_history(f, data, mode, hist, fields, kinds, model_rows):
                 if op[0] == 'get':
                     observe.column(getattr(t, op[1]))
                 else:
-                    impls[name] = list(tp.apply_impl(t, u, op, fields, kinds))
+                    impls[name] = list(tp.apply_impl(t, u, op, fields, kinds, f.buffer_type()))
                 outcomes[name] = ('ok',)
             except observe.ObserverError:
                 raise
@@ -167,11 +167,14 @@ def run_history(f, data, mode, hist, fields, kinds, model_rows):
         if op[0] != 'get':
             model.apply(op)
     # observations
-    for obs in OBS_SEQ:
+    regs = [(0, o) for o in OBS_SEQ]
+    if impls['lazy'][1] is not None:
+        regs += [(1, ('rows',)), (1, ('write',))]      # the saved register must be unaffected by what happened to t
+    for reg, obs in regs:
         vals = {}
         for name in ('lazy', 'eager'):
             try:
-                vals[name] = ('ok', tp.observe_impl(impls[name][0], obs, fields, f.buffer_type()))
+                vals[name] = ('ok', tp.observe_impl(impls[name][reg], obs, fields, f.buffer_type()))
             except observe.ObserverError:
                 raise
             except (observe.MalformedLibraryValue, observe.ColumnLengthMismatch) as e:
@@ -180,7 +183,7 @@ def run_history(f, data, mode, hist, fields, kinds, model_rows):
                 vals[name] = ('raises', exc_name(e), tb_string(e), '%s:%s' % raising_frame(e))
         if vals['lazy'][0] != vals['eager'][0]:
             r = vals['lazy'] if vals['lazy'][0] == 'raises' else vals['eager']
-            return {'status': 'disagree', 'where': 'observe:' + obs[0], 'step': len(hist), 'op': obs,
+            return {'status': 'disagree', 'where': 'observe:' + obs[0] + (':saved-register' if reg else ''), 'step': len(hist), 'op': obs,
                     'lazy': _short(vals['lazy'][:2]), 'eager': _short(vals['eager'][:2]), 'tb': r[2], 'frame': r[3], 'model': model}
         if vals['lazy'][0] == 'ok' and obs[0] == 'write' and vals['lazy'][1] != vals['eager'][1]:
             hl, bl = split_header(f.name, vals['lazy'][1])
@@ -191,13 +194,13 @@ def run_history(f, data, mode, hist, fields, kinds, model_rows):
                 where = 'observe:write-eager-trailing-tab-only'
             else:
                 where = 'observe:write'
-            return {'status': 'disagree', 'where': where, 'step': len(hist), 'op': obs,
+            return {'status': 'disagree', 'where': where + (':saved-register' if reg else ''), 'step': len(hist), 'op': obs,
                     'lazy': _short(vals['lazy'][1]), 'eager': _short(vals['eager'][1]), 'tb': None, 'frame': None, 'model': model}
         if vals['lazy'][0] == 'ok' and vals['lazy'][1] != vals['eager'][1]:
-            return {'status': 'disagree', 'where': 'observe:' + obs[0], 'step': len(hist), 'op': obs,
+            return {'status': 'disagree', 'where': 'observe:' + obs[0] + (':saved-register' if reg else ''), 'step': len(hist), 'op': obs,
                     'lazy': _short(vals['lazy'][1]), 'eager': _short(vals['eager'][1]), 'tb': None, 'frame': None, 'model': model}
         if obs[0] == 'rows' and vals['eager'][0] == 'ok':
-            common = vals['eager'][1] != model.values()
+            common = vals['eager'][1] != model.values('u' if reg else 't')
         else:
             common = False
         if common:
